@@ -96,3 +96,25 @@ fn c02_fin_with_full_receive_queue() -> Result {
     });
     sim.run()
 }
+
+/// F-C10-1: bytes cut off by a truncation must not come back when the file is extended again
+/// (POSIX: the extended part reads as zeros), whether or not anything was synced in between.
+#[test]
+fn c10_truncate_then_extend_reads_zeros() -> Result {
+    use std::os::unix::fs::FileExt;
+    use turmoil::fs::shim::std::fs::OpenOptions;
+    let mut sim = Builder::new().build();
+    sim.client("test", async {
+        let file = OpenOptions::new().read(true).write(true).create(true).open("/f")?;
+        file.write_all_at(b"ab", 0)?;
+        file.set_len(0)?;
+        file.set_len(2)?;
+        assert_eq!(file.metadata()?.len(), 2);
+        let mut buf = [7u8; 2];
+        let n = file.read_at(&mut buf, 0)?;
+        assert_eq!(n, 2);
+        assert_eq!(buf, [0u8, 0u8], "truncated bytes reappeared after the file was extended");
+        Ok(())
+    });
+    sim.run()
+}
